@@ -230,6 +230,7 @@ func checkWorkspaceFor(c wsCase, only string) error {
 					if e := fail("C01:own-output-unparseable", "step %d: %v\n%x", step, perr, out); e != nil {
 						return e
 					}
+					continue
 				}
 				look := func(mp *rc.Node) int64 {
 					if mp == nil {
